@@ -57,7 +57,7 @@ def instances(tier):
                           models=("env_stubs.c", "libm_stubs.c"),
                           desc={"layer": "float combiner: combining through a mask == combining the pre-masked source, bit-identical; mask alpha symbolic, colours from a menu"}))
     # API layer: pixman_image_composite32 on 1x2 images vs the Porter-Duff oracle
-    for name, mode, sf, df in (("OVER", 0, "a8r8g8b8", "a8r8g8b8"), ("IN_REVERSE", 0, "x8r8g8b8", "a8r8g8b8"), ("ATOP", 2, "a8r8g8b8", "x8r8g8b8"), ("ADD", 1, "a8r8g8b8", "a8r8g8b8")):
+    for name, mode, sf, df in (("OVER", 0, "a8r8g8b8", "a8r8g8b8"), ("IN_REVERSE", 0, "x8r8g8b8", "a8r8g8b8"), ("ATOP", 0, "a8r8g8b8", "x8r8g8b8"), ("ADD", 1, "a8r8g8b8", "a8r8g8b8")):
         L.append(Inst("api-%s-%s-%s-%s" % (name, MODES[mode], sf, df), "C01/api.c",
                       {"OP": PD_OPS[name], "MODE": mode, "W": 2, "SRC_FMT": "PIXMAN_" + sf, "DST_FMT": "PIXMAN_" + df, "VP_REL": None},
                       unwind=12, unwindset=API_UNWINDSET, objbits=12, timeout=900,
